@@ -9,10 +9,14 @@
    PROVED as well (C11_prior_returned): a prior under which every similar pair is already within
    the upper bound and every dissimilar pair beyond the lower bound is returned unchanged -- after
    every number of sweeps the state is exactly the initial one (A = A0, every lambda_i = 0).
-   NOT mechanised: that a converged (KKT) point is the unique optimum of the LogDet problem (strict
-   convexity); the converged clause is checked per run. *)
+   PROVED as well (C11_loop): the loop with the code's stopping test (change of the dual variables below tol, or
+   all of them zero, or max_iter sweeps) returns the state after exactly n_iter_ + 1 sweeps with n_iter_ < max_iter,
+   so the invariant above holds for what fit returns; (C11_converged): in any state the solver can reach, a
+   sweep that changes no dual variable (the stopping test in exact form) changes nothing at all, and every
+   constraint is then inactive (lambda_i = 0, slack-adjusted bound satisfied) or tight (v_i^T A v_i = xi_i).
+   NOT mechanised: that such a KKT point is the unique optimum of the LogDet problem (strict convexity). *)
 From Coq Require Import List Reals Lra Psatz.
-From ML Require Import Ops Vec VecR MatR PSD ITML C11Proof C11Fixed.
+From ML Require Import Ops Vec VecR MatR PSD ITML C11Proof C11Fixed C11Conv.
 Import ListNotations.
 Open Scope R_scope.
 
@@ -71,3 +75,47 @@ Example C11_prior_returned_nonvacuous :
   let c := @Build_cstr ROps [1; -2] true in
   let q := vdotR (cv c) (mvmulR [[1; 0]; [0; 1]] (cv c)) in 0 < q /\ q <= 6.
 Proof. cbn. lra. Qed.
+
+(* the loop as the code runs it returns a state of [run] *)
+Definition C11_loop_stmt : Prop :=
+  forall (g : option R) (cs : list cstrR) (tol : R) (max_iter : nat) (A0 : Rm) (lo hi : R), (0 < max_iter)%nat ->
+    exists n_iter, (n_iter < max_iter)%nat /\
+      snd (@fit_loop ROps g cs tol max_iter A0 lo hi) = n_iter /\
+      fst (@fit_loop ROps g cs tol max_iter A0 lo hi) = runR g cs (S n_iter) (@init ROps A0 cs lo hi).
+
+Theorem C11_loop : C11_loop_stmt.
+Proof.
+  intros g cs tol max_iter A0 lo hi H. unfold fit_loop.
+  destruct (@run_conv_is_run ROps g cs tol max_iter 0 (@init ROps A0 cs lo hi) (lams (@init ROps A0 cs lo hi)) H)
+    as [k [Hk [Hn Hs]]].
+  exists k. split; [exact Hk|]. split; [exact Hn | exact Hs].
+Qed.
+Print Assumptions C11_loop.
+
+(* converged clause: an unchanged dual vector means a fixed point at which every constraint is inactive or tight *)
+Definition C11_converged_stmt : Prop :=
+  forall (d : nat) (g : option R) (cs : list cstrR) (A0 B0 : Rm) (lo hi : R) (n : nat),
+    gamma_ok g -> Forall (cstr_ok d) cs -> inv_ok d A0 B0 -> 0 < lo -> 0 < hi ->
+    let s := runR g cs n (@init ROps A0 cs lo hi) in
+    lams (sweepR g cs s) = lams s ->
+    sweepR g cs s = s /\
+    Forall2 (fun (c : cstrR) (du : dualR) =>
+               let q := vdotR (cv c) (mvmulR (A s) (cv c)) in
+               (lam du = 0 /\ (if cpos c then q <= bhat du else bhat du <= q)) \/ q = bhat du) cs (duals s).
+
+Theorem C11_converged : C11_converged_stmt.
+Proof.
+  intros d g cs A0 B0 lo hi n Hg Hcs Hinv Hlo Hhi s Hl.
+  destruct (C11_partial d g cs A0 B0 lo hi n Hg Hcs Hinv Hlo Hhi) as [B [HA [_ [HP [_ [_ [HD HL]]]]]]].
+  fold s in HA, HP, HD, HL.
+  exact (itml_converged_kkt d g cs s Hg HA (wtw_pos d (A s) cs HP Hcs) HD HL Hl).
+Qed.
+Print Assumptions C11_converged.
+
+(* non-vacuity: one similar pair already tight under the identity prior is a fixed point with lambda = 0 *)
+Example C11_converged_nonvacuous :
+  let cs := [@Build_cstr ROps [1; 0] true] in
+  let s := @init ROps [[1; 0]; [0; 1]] cs 1 4 in
+  lams (sweepR (Some 1) cs s) = lams s.
+Proof. cbn. unfold lams, sweep. cbn. f_equal. rewrite omin_Rmin. unfold inv. cbn. unfold Rmin.
+  destruct (Rle_dec 0 _) as [|n0]; [lra|]. exfalso. apply n0. lra. Qed.
